@@ -514,7 +514,28 @@ def h_choicematch(case):
     return {'top': repr(round(top, 9))}
 
 
+def h_selectcands(case):
+    """NumberWithUnitExtractor._select_candidates on constructed candidates (advisory binding of SelectCandidates.tla)"""
+    global _NWU
+    try:
+        _NWU
+    except NameError:
+        from recognizers_number_with_unit.number_with_unit.extractors import NumberWithUnitExtractor
+        from recognizers_number_with_unit.number_with_unit.english.extractors import EnglishCurrencyExtractorConfiguration
+        _NWU = NumberWithUnitExtractor(EnglishCurrencyExtractorConfiguration())
+    from recognizers_text.extractor import ExtractResult
+    src = 'abcdefghij'[:case['n']]
+    ers = []
+    for c in case['ers']:
+        x = ExtractResult()
+        x.start, x.length, x.text, x.type, x.data = c['start'], c['length'], src[c['start']:c['start'] + c['length']], 'x', None
+        ers.append(x)
+    out = _NWU._select_candidates(src, ers, [c['prefix'] for c in case['ers']])
+    return {'out': [[r.start, r.length] for r in out]}
+
+
 _HANDLERS = {
+    'selectcands': h_selectcands,
     'choicematch': h_choicematch,
     'intvalue': h_intvalue,
     'mergemech': h_mergemech,
